@@ -49,17 +49,14 @@ Proof.
   intros Hwf. pose proof Hwf as (Hl & HP & HT).
   assert (Hspare : snd (RateLimiter.try_acquire c (RateLimiter.now (RateLimiter.init c))
                                              (RateLimiter.lm (RateLimiter.init c))) = RateLimiter.AOk None).
-  { unfold RateLimiter.try_acquire. cbn [RateLimiter.now RateLimiter.lm RateLimiter.init].
-    destruct (RateLimiter.wt c).
-    - apply Proof.RateLimiter.fixed_spare; [exact Hwf|]. left. cbn. lia.
-    - apply Proof.RateLimiter.log_spare. cbn. lia.
-    - unfold RateLimiter.counter_try, RateLimiter.rotate.
-      cbn [RateLimiter.bucket_start RateLimiter.new_lim RateLimiter.prevc RateLimiter.curc].
-      match goal with |- context [if RateLimiter.period c <=? ?e then _ else _] =>
-        assert (RateLimiter.period c <=? e = false) as -> by (apply Z.leb_gt; lia) end.
-      cbn [RateLimiter.bucket_start RateLimiter.new_lim RateLimiter.prevc RateLimiter.curc].
-      match goal with |- context [if ?b then _ else _] =>
-        assert (b = true) as -> by (apply Z.ltb_lt; nia) end. reflexivity. }
+  { cbn [RateLimiter.now RateLimiter.lm RateLimiter.init].
+    assert (Ht : Forall (eq (RateLimiter.AOk None)) (Proof.RateLimiter.tries c 1 0 (RateLimiter.new_lim c))).
+    { destruct (RateLimiter.wt c) eqn:Ew.
+      - apply Proof.RateLimiter.fresh_fixed; [exact Hwf|exact Ew|reflexivity|cbn; lia].
+      - apply Proof.RateLimiter.fresh_log; [exact Hwf|exact Ew|constructor|cbn; lia].
+      - apply Proof.RateLimiter.fresh_counter; [exact Hwf|exact Ew|reflexivity|reflexivity|cbn; lia|cbn; lia]. }
+    cbn [Proof.RateLimiter.tries] in Ht.
+    destruct (RateLimiter.try_acquire c 0 (RateLimiter.new_lim c)) as [l' a]. inversion Ht; subst. reflexivity. }
   destruct (Proof.RateLimiter.admitted_at_once c (RateLimiter.init c) 0%nat eq_refl Hspare) as [H1 H2].
   split; [exact H1|]. rewrite H2. reflexivity.
 Qed.
@@ -521,17 +518,36 @@ Proof.
   apply count_kind_sim. exact H.
 Qed.
 
-(* one request through the stack: the outcome handed up is the inner one, whatever the listeners do *)
-Lemma run_lstack_guarded ls : forall ids k p,
+(* the listeners [ls] are contained by the guard of every layer of the stack *)
+Definition lcontained (ids : list Z) (ls : list listener) : Prop :=
+  forall id, In id ids -> contains (guarded_of id) (subscribed id ls).
+
+Lemma only_kind_contains g : forall ls i, contains g ls -> contains g (only_kind i ls).
+Proof.
+  induction ls as [|l r IH]; intros i H; cbn [only_kind]; [intros l0 ev []|].
+  intros l0 ev [<-|Hin].
+  - destruct (ev =? i); [apply H; left; reflexivity|destruct g; reflexivity].
+  - apply (IH (i + 1)); [|exact Hin]. intros l1 ev1 H1. apply H. right. exact H1.
+Qed.
+
+Lemma subscribed_contains g id ls : contains g ls -> contains g (subscribed id ls).
+Proof. intros H. unfold subscribed. destruct (id =? 8); [apply only_kind_contains|]; exact H. Qed.
+
+(* one request through the stack: the outcome handed up is the inner one, whatever the (contained)
+   listeners do *)
+Lemma run_lstack_contained ls : forall ids k p, lcontained ids ls ->
   run_lstack ids ls (FOut k p) =
   (FOut k p, map (fun id => deliveries_of (subscribed id ls) (map SEmit (pre_events id)) ++
                             deliveries_of (subscribed id ls) (map SEmit (post_events id k))) ids).
 Proof.
-  induction ids as [|id rest IH]; intros k p; [reflexivity|].
-  cbn [run_lstack map]. unfold guarded_of. rewrite run_steps_guarded. cbn [rev app].
+  induction ids as [|id rest IH]; intros k p Hc; [reflexivity|].
+  cbn [run_lstack map].
+  assert (Hid : contains (guarded_of id) (subscribed id ls)) by (apply Hc; left; reflexivity).
+  rewrite (run_steps_contained _ _ Hid). cbn [rev app].
   assert (Hf : forall evs cur, final_of (map SEmit evs) cur = cur)
     by (induction evs as [|e r IHe]; intros cur; cbn; auto).
-  rewrite Hf. rewrite IH. rewrite run_steps_guarded. cbn [rev app]. rewrite Hf. reflexivity.
+  rewrite Hf. rewrite IH by (intros id' Hin; apply Hc; right; exact Hin).
+  rewrite (run_steps_contained _ _ Hid). cbn [rev app]. rewrite Hf. reflexivity.
 Qed.
 
 Lemma zip_app_sim : forall a a' b b',
@@ -554,14 +570,15 @@ Proof.
   apply Forall2_app; apply deliveries_sim; apply subscribed_sim; exact Hl.
 Qed.
 
-Lemma run_l4_sim ids ls ls' : Forall2 lsim ls ls' -> forall reqs acc acc',
+Lemma run_l4_sim ids ls ls' : Forall2 lsim ls ls' -> lcontained ids ls -> lcontained ids ls' ->
+  forall reqs acc acc',
   Forall2 (Forall2 dsim) acc acc' ->
   fst (run_l4 ids ls reqs acc) = fst (run_l4 ids ls' reqs acc') /\
   Forall2 (Forall2 dsim) (snd (run_l4 ids ls reqs acc)) (snd (run_l4 ids ls' reqs acc')).
 Proof.
-  intros Hl. induction reqs as [|[[req ok] v] rest IH]; intros acc acc' Ha; cbn [run_l4].
+  intros Hl Hc Hc'. induction reqs as [|[[req ok] v] rest IH]; intros acc acc' Ha; cbn [run_l4].
   - split; [reflexivity|exact Ha].
-  - rewrite !run_lstack_guarded.
+  - rewrite !run_lstack_contained by assumption.
     set (k := nth 2 (beh_ints (length ids) (stack_sem (map sem_of ids) (scripted ok v) req)) 0).
     pose proof (layer_deliveries_sim ls ls' k Hl ids) as Hd.
     specialize (IH _ _ (zip_app_sim _ _ _ _ Ha Hd)).
@@ -574,22 +591,33 @@ Lemma listener_of_sim mask mask' nl :
   Forall2 lsim (map (listener_of mask) (seq 0 nl)) (map (listener_of mask') (seq 0 nl)).
 Proof.
   generalize 0%nat. induction nl as [|n IH]; intros s; cbn [seq map]; constructor; [|apply IH].
-  intros ev. unfold rsim, listener_of. destruct (Z.testbit mask _); destruct (Z.testbit mask' _); reflexivity.
+  intros ev. unfold rsim, listener_of.
+  destruct (Z.testbit mask (Z.of_nat s + 4)); destruct (Z.testbit mask' (Z.of_nat s + 4));
+    destruct (Z.testbit mask (Z.of_nat s)); destruct (Z.testbit mask' (Z.of_nat s)); reflexivity.
 Qed.
 
-(* ... the whole mode-4 trace (outcomes and absolute per-layer / per-listener / per-kind counts) of
-   EVERY script is the trace of the same script with no panicking listener *)
+(* every layer's listener invocations contain whatever its listeners do *)
+Lemma listeners_contained ids ls : lcontained ids ls.
+Proof. intros id Hin. apply subscribed_contains. unfold guarded_of. apply catch_drop_contains. Qed.
+
+(* ... the whole mode-4 trace (outcomes, absolute per-layer / per-listener / per-kind counts, and the
+   counts of the reference run) of EVERY script is the trace of the same script with no panicking
+   listener, whether the listeners panic with an ordinary payload or with one whose Drop panics *)
 Theorem l4_trace_mask_independent ids nl mask reqs :
   l4_trace ids nl mask reqs = l4_trace ids nl 0 reqs.
 Proof.
   unfold l4_trace.
   assert (Ha : Forall2 (Forall2 dsim) (map (fun _ : Z => @nil (Z * list lresult)) ids) (map (fun _ : Z => []) ids)).
   { induction ids; cbn; constructor; auto. }
-  destruct (run_l4_sim ids _ _ (listener_of_sim mask 0 nl) reqs _ _ Ha) as [H1 H2].
+  destruct (run_l4_sim ids _ _ (listener_of_sim mask 0 nl) (listeners_contained ids _) (listeners_contained ids _)
+              reqs _ _ Ha) as [H1 H2].
   destruct (run_l4 ids (map (listener_of mask) (seq 0 nl)) reqs _) as [o1 a1].
   destruct (run_l4 ids (map (listener_of 0) (seq 0 nl)) reqs _) as [o2 a2].
-  cbn [fst snd] in *. subst o2. f_equal. f_equal.
-  induction H2 as [|d d' r r' Hd Hr IH]; [reflexivity|]. cbn [map]. rewrite (counts_of_sim nl d d' Hd), IH. reflexivity.
+  cbn [fst snd] in *. subst o2.
+  assert (HC : concat (map (counts_of nl) a1) = concat (map (counts_of nl) a2)).
+  { induction H2 as [|d d' r r' Hd Hr IH]; [reflexivity|]. cbn [map concat].
+    rewrite (counts_of_sim nl d d' Hd), IH. reflexivity. }
+  rewrite HC. reflexivity.
 Qed.
 
 (* ... and its outcome part is the transparent one: each request reaches the wrapped service once,
@@ -597,8 +625,8 @@ Qed.
 Theorem l4_outcomes_transparent ids ls : forall reqs acc,
   fst (run_l4 ids ls reqs acc) = run_transparent ids reqs.
 Proof.
-  induction reqs as [|[[req ok] v] rest IH]; intros acc; [reflexivity|].
-  cbn [run_l4 run_transparent]. rewrite run_lstack_guarded.
+  pose proof (listeners_contained ids ls) as Hc. induction reqs as [|[[req ok] v] rest IH]; intros acc; [reflexivity|].
+  cbn [run_l4 run_transparent]. rewrite run_lstack_contained by exact Hc.
   specialize (IH (zip_app acc (map (fun id => deliveries_of (subscribed id ls) (map SEmit (pre_events id)) ++
      deliveries_of (subscribed id ls) (map SEmit (post_events id
        (nth 2 (beh_ints (length ids) (stack_sem (map sem_of ids) (scripted ok v) req)) 0)))) ids))).
@@ -609,17 +637,36 @@ Qed.
 (* ---- Part 3 ---------------------------------------------------------------------------------- *)
 (* ---- non-vacuity: the scripts are executed, the hypotheses are met by reachable states ---- *)
 
-(* mode 1: a retry layer with two further attempts under a bulkhead-like Swap layer, with a Pending
-   answer on the way and an Err at the second request's poll_ready (code 1) *)
+(* mode 1: a retry layer with two further attempts under a bulkhead-like Swap layer (the wrapped service
+   fails the first two calls of every request), a Pending answer on the way and an Err at the second
+   request's poll_ready (code 1) *)
 Example ex_protocol :
   run_script [1; 2; 0; 2; 2; 2; 0; 1; 0; 0; 2] =
-  [0; 1;  1;0;0;0; 2;0;1;1; 1;0;1;0; 1;0;0;0; 2;0;1;1; 1;0;0;0; 2;0;1;1;  1;1;2;0;  0].
+  [0; 1;  1;0;0;0; 2;0;3;1; 1;0;1;0; 1;0;0;0; 2;0;3;1; 1;0;0;0; 2;0;1;1;  1;1;2;0;  0].
 Proof. vm_compute. reflexivity. Qed.
 
 (* two retrying layers: the readiness error met by the inner one before its further attempt is not
-   retried by the outer one and ends the request (code 2) *)
+   retried by an outer one that refuses readiness errors, and ends the request (code 2) ... *)
 Example ex_two_retrying_layers :
-  run_script [1; 2; 2; 2; 1; 1; 0; 0; 2] = [2;  1;0;0;0; 2;0;1;1; 1;0;0;0; 2;0;1;1; 1;1;2;0;  0].
+  run_script [1; 2; 2; 2; 1; 1; 0; 0; 2] = [2;  1;0;0;0; 2;0;3;1; 1;0;0;0; 2;0;3;1; 1;1;2;0;  0].
+Proof. vm_compute. reflexivity. Qed.
+
+(* ... a single retry layer with the crate's DEFAULT policy returns its own failed readiness check too
+   (second review, regression R1) *)
+Example ex_default_policy_own_readiness_error :
+  run_script [1; 1; 5; 1; 1; 0; 2] = [2;  1;0;0;0; 2;0;3;1; 1;0;2;0;  0].
+Proof. vm_compute. reflexivity. Qed.
+
+(* hedge in latency mode with a delay longer than a call, the primary fails: one hedge, on a clone that is
+   polled ready first, succeeds and no further hedge is started (regression R3's arm) *)
+Example ex_hedge_after_failed_primary :
+  run_script [1; 1; 7; 2097154; 1] = [0;  1;0;0;0; 2;0;3;1; 1;1;0;0; 2;1;1;1;  0].
+Proof. vm_compute. reflexivity. Qed.
+
+(* an application error of the wrapped service comes back as such (code 10), not retried by a retry layer
+   that only accepts transient errors *)
+Example ex_application_error :
+  run_script [1; 2; 0; 2; 33; 2] = [0; 10;  1;0;0;0; 2;0;3;1; 1;0;0;0; 2;0;1;1;  1;1;0;0; 2;1;5;2;  0].
 Proof. vm_compute. reflexivity. Qed.
 
 (* eleven Pending answers before a further attempt -- more than the client itself would accept at
@@ -637,18 +684,21 @@ Proof. vm_compute. reflexivity. Qed.
 
 Example ex_program_clone :
   run_script [3; 2; 0; 2; 1; 6;  2;0;0; 0;1;0; 1;1;0; 0;0;0; 1;0;0; 1;9;0;  0;-1; 1;0;-1; 2;-1] =
-  [0;0;0;0;0;8;  0;0;  1;0;0;0; 2;0;1;1; 1;0;0;0; 2;0;1;1; 1;1;1;0; 1;1;0;0; 2;1;1;2; 1;1;0;0; 2;1;1;2;  0].
+  [0;0;0;0;0;8;  0;0;  1;0;0;0; 2;0;3;1; 1;0;0;0; 2;0;1;1; 1;1;1;0; 1;1;0;0; 2;1;3;2; 1;1;0;0; 2;1;1;2;  0].
 Proof. vm_compute. reflexivity. Qed.
 
 (* mode 0 through the per-layer models (bulkhead, reconnect, cache, an unknown id) and mode 4 with two
-   listeners, the first panicking, on bulkhead / retry / fallback *)
+   listeners, the first panicking with a payload whose Drop panics (mask 16) and the second with an
+   ordinary one (mask 1 is listener 0: here mask 17 = both styles on listener 0), on bulkhead / retry /
+   fallback: the counts equal those of the reference run (second half) *)
 Example ex_transparent :
   run_script [0; 4; 0; 8; 5; 99; 0; 2;  5;0;11; 6;1;12] = [1;5;0;11; 1;6;1;12].
 Proof. vm_compute. reflexivity. Qed.
 
 Example ex_listeners_stack :
-  run_script [4; 3; 0; 3; 6; 2; 1; 3;  5;0;11; 6;1;12; 7;0;13] =
+  run_script [4; 3; 0; 3; 6; 2; 17; 3;  5;0;11; 6;1;12; 7;0;13] =
   [1;5;0;11; 1;6;1;12; 1;7;0;13;
+   3;0;2;1;0;0; 3;0;2;1;0;0;  0;2;0;1;0;0; 0;2;0;1;0;0;  2;0;0;0;1;0; 2;0;0;0;1;0;
    3;0;2;1;0;0; 3;0;2;1;0;0;  0;2;0;1;0;0; 0;2;0;1;0;0;  2;0;0;0;1;0; 2;0;0;0;1;0].
 Proof. vm_compute. reflexivity. Qed.
 
@@ -677,7 +727,7 @@ Qed.
 
 (* rate limiter of 2 permits per window, one already taken by caller 1 (still running) *)
 Example ex_ratelimiter_mid_window :
-  let c := RateLimiter.mkCfg RateLimiter.Fixed 2 1000 0 in
+  let c := RateLimiter.mkCfg RateLimiter.Fixed 2 1000 0 0 in
   let s := fst (RateLimiter.poll c (RateLimiter.init c) 1%nat) in
   RateLimiter.cs s 1%nat = RateLimiter.Running /\
   passes wrapd (sem_of_ratelimiter wrapd maded c s 0).
@@ -688,7 +738,7 @@ Qed.
 
 (* the hypotheses of ratelimiter_running_returns_outcome at a reachable state *)
 Example ex_ratelimiter_running_reachable :
-  let c := RateLimiter.mkCfg RateLimiter.Fixed 2 1000 0 in
+  let c := RateLimiter.mkCfg RateLimiter.Fixed 2 1000 0 0 in
   let s := RateLimiter.complete (fst (RateLimiter.poll c (RateLimiter.init c) 0%nat)) 0%nat RateLimiter.OErr in
   RateLimiter.cs s 0%nat = RateLimiter.Running /\ RateLimiter.gate s 0%nat = Some RateLimiter.OErr.
 Proof. cbn zeta. split; reflexivity. Qed.
@@ -701,6 +751,6 @@ Proof. cbn zeta. split; [reflexivity|]. apply coalesce_passes; reflexivity. Qed.
 
 (* the readiness-error counting theorem is not vacuous: a hedge-free stack, two errors, two surfaced *)
 Example ex_errors_counted :
-  let r := client CF 9 [Swap; Retry 1; Direct] (init_stack [Swap; Retry 1; Direct] (init_base [RErr; RReady; RErr])) [1; 2; 3] in
+  let r := client CF 9 [Swap; Retry 1 false; Direct] (init_stack [Swap; Retry 1 false; Direct] (init_base_f [RErr; RReady; RErr] 1 0)) [1; 2; 3] in
   nerrs (blog (snd (fst r))) = 2%nat /\ snd r = [1; 2; 0].
 Proof. vm_compute. split; reflexivity. Qed.
